@@ -269,6 +269,21 @@ func genExtras(r *hx.Rand) []field {
 	if r.Chance(1, 8) {
 		fs = append(fs, field{key: "Original-Maintainer", sep: " ", first: "Zo\xc3\xab <zoe@example.org>"})
 	}
+	if r.Chance(1, 150) {
+		// lines beyond bufio's default buffers (4 KiB reader, 64 KiB scanner token): legal, and
+		// met in practice (Depends/Provides of metapackages, Conffiles)
+		f := field{key: r.Pick("Provides", "Depends", "Breaks"), sep: " "}
+		n := (64<<10)/22 + r.Intn(3000)
+		var b strings.Builder
+		for i := 0; i < n; i++ {
+			fmt.Fprintf(&b, "libfoo%05d (>= 1.%d), ", i, i%10)
+		}
+		f.first = b.String() + "libend"
+		if r.Chance(1, 2) {
+			f.conts = append(f.conts, " "+b.String()+"libend2")
+		}
+		fs = append(fs, f)
+	}
 	return fs
 }
 
@@ -747,6 +762,11 @@ func runDpkg(r *hx.Run, rnd *hx.Rand, cfg hx.Config) {
 		so := genSerOpts(rnd)
 		st := renderStatus(rnd, db, so)
 		r.Count(fmt.Sprintf("dpkg:entries:%s", sizeBucket(n)))
+		for _, l := range bytes.Split(st, []byte("\n")) {
+			if len(l) >= 64<<10 {
+				r.Count("dpkg:line>=64KiB")
+			}
+		}
 		got := opDpkg(r, st, len(expectedDB(db, "")) > 0)
 		ok, class := checkDebDB(r, db, st, got, "var/lib/dpkg/status", false)
 		switch {
